@@ -164,3 +164,23 @@ Print Assumptions C12_request_fields.
 Theorem C12_wire_instant_bounds : forall t, t - 999999 <= wire_instant t <= t.
 Proof. exact wire_instant_bounds. Qed.
 Print Assumptions C12_wire_instant_bounds.
+
+(* where the messages go: Get*BindingLocation returns the Location of the first
+   endpoint of the IdP's list with exactly the wanted binding (never its
+   ResponseLocation), or "" when there is none *)
+Theorem C12_destination_is_location :
+  forall b eps,
+  (exists pre rl post,
+     eps = (pre ++ (b, binding_location b eps, rl) :: post)%list /\
+     (forall e, In e pre -> fst (fst e) <> b)) \/
+  (binding_location b eps = EmptyString /\ forall e, In e eps -> fst (fst e) <> b).
+Proof. exact binding_location_spec. Qed.
+Print Assumptions C12_destination_is_location.
+
+Theorem C12_destination_meets_monitor :
+  forall eps k b,
+  let dest := binding_location (binding_urn (binding_of b)) eps in
+  blcase_spec {| bl_eps := eps; bl_kind := k; bl_binding := b;
+                 bl_target := target_of (binding_of b) dest; bl_destination := opt_nonempty dest |} = true.
+Proof. exact destination_meets_spec. Qed.
+Print Assumptions C12_destination_meets_monitor.
